@@ -282,6 +282,11 @@ def check_C06(chk, tier, seed):
 
 def announced_lengths(rng, tier):
     ls = set(range(0, 65)) | set(range((1 << 20) - 16, (1 << 20) + 17)) | set(range((1 << 24) - 16, 1 << 24)) | {1 << k for k in range(0, 24)}
+    # every length up to 1100 (tier quick: every one up to 300, then every third) and the neighbourhood of every power of two: the
+    # seams of any small-frame fast path, stack buffer or size class a reader might have
+    ls |= set(range(65, 1101)) if tier != "quick" else (set(range(65, 301)) | set(range(301, 1101, 3)))
+    for k in range(8, 24):
+        ls |= {(1 << k) + d for d in range(-5, 6)}
     r = rng.fork("L")
     for _ in range(40 if tier == "quick" else 4000):
         ls.add(r.below(1 << 24))
@@ -329,6 +334,11 @@ def check_C07(chk, tier, seed):
     extra = [(c.replace("SD g", "SDN g", 1), m) for c, m in list(zip(cases, meta))[::5] if " t:" not in c]
     cases += [c for c, _ in extra]
     meta += [(m[0], m[1] + "@no-time-driver" if m[1] != "interrupted-read" else m[1], m[2]) for _, m in extra]
+    # ... and every seventh case once more while 40 other decodes of the same process sit in the middle of frames whose peers have
+    # stopped sending: what happens to a frame depends on its own stream alone - the refusal of a hostile length comes at once
+    extra = [(c.replace("SD g", "SDP g", 1), m) for c, m in list(zip(cases, meta))[::7] if c.startswith("SD g")]
+    cases += [c for c, _ in extra]
+    meta += [(m[0], m[1] + "@others-parked" if m[1] != "interrupted-read" else m[1], m[2]) for _, m in extra]
     cases += [c for c in regress_cases("C07")]
     meta += [(None, "regress", 0)] * (len(cases) - len(meta))
     impl = core.run_sharded([eng.harness, "codec"], eng.prelude, cases, timeout=900)
